@@ -97,6 +97,38 @@ def run(chk):
                         lines.append(core.fmt_case(801, [[int(le), size, sb, -1 if bn is None else bn, int(sl is True)]]))
                         keys.append((le, size, sb, bn, sl))
                         impl_res.append(res)
+    # ---- the observable consequence: a payload with only the denoted physical bit set decodes to the referred bit's weight ----
+    Frame = cm.canmatrix.Frame
+    nprobe = 4000 if not thorough else 40000
+    for _ in range(nprobe):
+        le = chk.rng.random() < 0.5
+        size = chk.rng.randrange(1, 65)
+        sb = chk.rng.randrange(0, 512)
+        bn = chk.rng.choice(BN)
+        sl = chk.rng.choice(SL)
+        s = Signal("s", size=size, is_little_endian=le, is_signed=False)
+        try:
+            s.set_startbit(sb, bitNumbering=bn, startLittle=sl)
+        except Err:
+            continue
+        internal = s.start_bit
+        # does the signal lie inside a 64-byte frame?
+        if internal + size > 512:
+            continue
+        fr = Frame("f", size=64)
+        fr.add_signal(s)
+        byte, bit = coord(eff_lsb0(le, bn), sb)
+        if not (0 <= byte < 64):
+            continue
+        payload = bytearray(64)
+        payload[byte] |= 1 << bit
+        got = fr.decode(bytes(payload))["s"].raw_value
+        want = 1 << ref_bit(le, size, sl)
+        chk.case(("weight", le, size, sb, bn, sl), True)
+        chk.count("single-bit-decode")
+        if got != want:
+            chk.violation("single-bit-weight", "payload with only the denoted bit set does not decode to the referred bit's weight",
+                          dict(le=le, size=size, sb=sb, bn=bn, sl=sl, byte=byte, bit=bit), want, got)
     chk.sample({"le": False, "size": 12, "set": [7, 1, False], "internal": 0, "gets(None/0/1 x msb/lsb)": [0, 11, 0, 11, 7, 12]})
     chk.exhaustive = True
     if not ok:
